@@ -15,7 +15,7 @@ class PyxFrontError(Exception):
 
 
 TYPE_RE = (
-    r"(?:const\s+)?(?:unsigned\s+)?[A-Za-z_][\w.]*(?:\s*\[[^\]]*\])?"
+    r"(?:const\s+)?(?:unsigned\s+)?[A-Za-z_][\w.]*(?:\s*\[[^\]]*\])?(?:\s*\*)?"
 )
 DECL_RE = re.compile(
     r"^(?P<ind>\s*)cdef\s+(?P<type>" + TYPE_RE + r")\s+"
@@ -154,6 +154,12 @@ def convert(src, filename="<pyx>"):
                 info.directives[k.strip()] = v.strip()
     while i < n:
         line = lines[i]
+        # C casts `<int>expr` / `<double>expr`: the value is the expression (narrowing is what the declared type of the target does anyway)
+        if "<" in line and ">" in line:
+            line = re.sub(r"<\s*(?:unsigned\s+)?(?:int|long|double|float|bint|size_t|Py_ssize_t|np\.\w+)\s*>\s*(?=[A-Za-z_(])", "", line)
+        # address-of `&x[i, j]` (raw pointers): the converted source keeps the operand; the pointer type stays in the side table
+        if "&" in line and re.search(r"(?<=[=(,\s])&(?=[A-Za-z_])", line):
+            line = re.sub(r"(?<=[=(,\s])&(?=[A-Za-z_])", "", line)
         code = _strip_comment(line)
         stripped = code.strip()
         ind = len(line) - len(line.lstrip())
